@@ -5,7 +5,7 @@ change applied, undo it, and write meta.json."""
 import sys, os, json, subprocess, shutil, xml.etree.ElementTree as ET, tempfile
 prop, wt = sys.argv[1], sys.argv[2]
 name = sys.argv[sys.argv.index('--name') + 1] if '--name' in sys.argv else f'{prop}-1'
-VERIF = '/verif'
+VERIF = os.environ.get('VERIF_ROOT', '/verif')
 out = os.path.join(VERIF, 'seeded', name)
 os.makedirs(out, exist_ok=True)
 def sh(cmd, cwd=None, env=None, timeout=3600):
@@ -51,13 +51,13 @@ else:
     try:
         props = [prop]
         if '--all' in sys.argv:
-            props = [c['property_id'] for c in json.load(open('/verif/MANIFEST.json'))['checks']]
+            props = [c['property_id'] for c in json.load(open(os.path.join(VERIF, 'MANIFEST.json')))['checks']]
         results = {}
         for p in props:
             rc, o = sh(f'./check {p} --tier quick', cwd=VERIF, env=cenv)
             lines = [l for l in o.split('\n') if l.startswith(('VIOLATION', 'OK ', 'KNOWN-FINDING'))]
             results[p] = {'exit': rc, 'lines': lines}
-            ev = json.load(open(f'/verif/evidence/{p}.json'))
+            ev = json.load(open(os.path.join(VERIF, 'evidence', f'{p}.json')))
             results[p]['broken'] = [b['name'] for b in ev.get('broken_artefacts', [])][:4]
             results[p]['found'] = sorted(set(f['kind'] for f in ev.get('found', [])))
             print(p, rc, lines[:2], results[p]['broken'][:2], results[p]['found'])
